@@ -74,7 +74,7 @@ def make_state(ctx, fopen, bopen):
 
 
 def instruction(op):
-    return ("struct", "Instruction", {"class": ("struct", "Instruction", {"opcode": ("enum", "Op::" + op, []), "opname": ("str", op)}),
+    return ("struct", "Instruction", {"class": ("struct", "Instruction", {"opcode": ("enum", "Op::" + op, []), "opname": ("str", op), "capabilities": ("list", []), "extensions": ("list", []), "operands": ("list", [("sym", "LOGICAL_OPERAND")])}),
                                       "result_type": NONE, "result_id": NONE, "operands": ("list", [])})
 
 
